@@ -58,12 +58,13 @@ contract('parso.cache._set_cache_item',
                                    'old(g in parser_cache and p in parser_cache[g]) and parser_cache[g][p] is old(parser_cache[g][p])))'])},
          modifies=['parser_cache', '$maps'], props=['C16'])
 
-contract('parso.file_io.FileIO.get_last_modified', params={'self': 'ref:FileIO'}, returns='opt:int', trusted=True,
+contract('parso.file_io.FileIO.get_last_modified', params={'self': 'ref:FileIO'}, returns='opt:int',
          ensures=['implies(not (result is None), result == cur_mtime(self.path))'], raises=['OSError'],
-         note='environment: the modification time observed now')
+         note='what os.path.getmtime reports (assumed contract ext:genericpath.getmtime); a missing file gives None, other '
+              'OSErrors escape')
 # ---- the disk branch.  Ghost file system: file_mtime(p) is the modification time of the file at p, file_obj(p) the
 # object its pickle holds, path_of(h) the path a file handle was opened on, hashed_path(g, p, c) the cache file name.
-_fm = z3.Function('file_mtime', I, I)
+_fm = _cur        # one ghost: the modification time of the file at a path now (source files and pickles alike)
 _fo = z3.Function('file_obj', I, I)
 _po = z3.Function('path_of', I, I)
 _hp = z3.Function('hashed_path', I, I, I, I)
